@@ -2,7 +2,7 @@
 SPECIFICATION XFairSpec
 CONSTANTS
   MaxQs = {0, 1, 2}
-  NMsg = 2
+  NMsg = 3
   DiscChoices = {TRUE, FALSE}
   GeCmp = TRUE
   AwaitStop = TRUE
